@@ -299,10 +299,7 @@ Section SpecLaid.
       pose proof (chain_le W _ _ _ C1) as L1. pose proof (chain_le W _ _ _ C2) as L2.
       pose proof (chain_le W _ _ _ C3) as L3. pose proof (chain_le W _ _ _ C4) as L4.
       rewrite slocs_app, slocs_tag_if, !slocs_app.
-      assert (Hlim : slocs (if has_func e3 then tag_if (fun o => flv <? s_flv o) CB5 (b_exp flv slv reg e2 en)
-                            else b_exp flv slv reg e2 en) = slocs (b_exp flv slv reg e2 en))
-        by (destruct (has_func e3); [apply slocs_tag_if|reflexivity]).
-      rewrite Hlim. cbn [slocs map]. fold (slocs (snd (b_block flv (slv + 1) l bk (push_decls en [(n, vl)] [false])))).
+      cbn [slocs map]. fold (slocs (snd (b_block flv (slv + 1) l bk (push_decls en [(n, vl)] [false])))).
       eapply ILD_widen; [|exact H2|exact H3].
       set (X := slocs (b_exp flv slv reg e1 en) ++ slocs (b_exp flv slv reg e2 en) ++ slocs (b_exp flv slv reg e3 en)).
       assert (T : ILD (lo W l) (hi W l) ([vl] ++ X ++ slocs (snd (b_block flv (slv + 1) l bk (push_decls en [(n, vl)] [false]))))).
